@@ -94,3 +94,115 @@ func VerifC16_Column() {
 	zzverif.Assert(l0.Start == 0 && l0.End == 0 && c0.Start == 0 && c0.End == 0, "unknown-line-gives-zero")
 	zzverif.Reach("column")
 }
+
+// ---- totality of the line lookups (C08) and their answer on lines that are not declarations (C16)
+
+// verifSpecDeclares is the specification of "this line declares <name> with <keyword>": optional
+// blanks/tabs, the words of the keyword and the name separated by non-empty runs of blanks/tabs, and
+// the name ends there (end of line or a character that cannot continue a name).  Written as a small
+// scanner over indices, independent of the code under test (no Trim/Cut/Fields).
+func verifSpecDeclares(line string, words []string, name string) bool {
+	i := 0
+	blank := func(c byte) bool { return c == ' ' || c == '\t' }
+	for i < len(line) && (blank(line[i]) || line[i] == '\n' || line[i] == '\r' || line[i] == '\v' || line[i] == '\f') {
+		i++ // TrimSpace of the whole line comes first in the code: leading white space of any kind is skipped
+	}
+	for _, w := range words {
+		if len(line)-i < len(w) || line[i:i+len(w)] != w {
+			return false
+		}
+		i += len(w)
+		j := i
+		for j < len(line) && blank(line[j]) {
+			j++
+		}
+		if j == i {
+			return false
+		}
+		i = j
+	}
+	if len(line)-i < len(name) || line[i:i+len(name)] != name {
+		return false
+	}
+	i += len(name)
+	if i == len(line) {
+		return true
+	}
+	c := line[i]
+	return !(c == '_' || c == '-' || c == '.' || c == '/' || (c >= '0' && c <= '9') || (c >= 'a' && c <= 'z') || (c >= 'A' && c <= 'Z'))
+}
+
+var verifKeywords = [][]string{{"type"}, {"extend", "type"}, {"define"}, {"condition"}}
+
+func verifLookup(k int, name string, lines []string) int {
+	switch k {
+	case 0:
+		return GetTypeLineNumber(name, lines)
+	case 1:
+		return GetExtendedTypeLineNumber(name, lines)
+	case 2:
+		return GetRelationLineNumber(name, lines)
+	}
+	return GetConditionLineNumber(name, lines)
+}
+
+// verifOddLine: a line cut out of a declaration at any point - the keyword phrase cut after any of its
+// characters (bare keyword, half a keyword, `extend` alone, ...), then optionally blanks, then up to T
+// arbitrary characters.
+func verifOddLine(k int) string {
+	phrase := strings.Join(verifKeywords[k], verifSeps[zzverif.Choose("separator", len(verifSeps))])
+	cut := zzverif.Choose("cut", len(phrase)+1)
+	line := verifIndents[zzverif.Choose("indent", len(verifIndents))] + phrase[:cut]
+	line += []string{"", " ", "\t", "  "}[zzverif.Choose("blanks", 4)]
+	return line + zzverif.Str("rest", 0, zzverif.Param("T", 2), "aet \t#:")
+}
+
+// VerifC08_OddLines: every lookup on lines that are not well-formed declarations returns (no panic)
+// and finds the declaration exactly where the specification says one stands.
+func VerifC08_OddLines() {
+	k := zzverif.Choose("keyword", len(verifKeywords))
+	name := zzverif.Str("name", 1, 2, "aet")
+	lines := []string{verifOddLine(k)}
+	if zzverif.Choose("second", 2) == 1 {
+		lines = append(lines, strings.Join(verifKeywords[k], " ")+" "+name)
+	}
+	want := -1
+	for i, l := range lines {
+		if verifSpecDeclares(l, verifKeywords[k], name) {
+			want = i
+			break
+		}
+	}
+	got := verifLookup(k, name, lines)
+	zzverif.Assert(got == want, "odd-line-lookup-agrees-with-specification")
+	// the position of a symbol on such a line: inside the line, and on the symbol if it occurs behind the keyword
+	l, c := ConstructLineAndColumnData(lines, 0, name)
+	zzverif.Assert(l.Start == 0 && l.End == 0, "odd-line-range")
+	zzverif.Assert(c.Start >= 0 && c.End-c.Start == len(name), "odd-line-column-width")
+	if want == 0 {
+		zzverif.Assert(c.End <= len(lines[0]) && lines[0][c.Start:c.End] == name, "odd-line-column-covers-the-name")
+		zzverif.Reach("declaration")
+	} else {
+		zzverif.Reach("no-declaration")
+	}
+}
+
+// VerifC08_FreeLine: one fully symbolic short line (every string over the letters of `type`, a, blank,
+// tab) through the `type` lookup and the column computation.
+func VerifC08_FreeLine() {
+	line := zzverif.Str("line", 0, zzverif.Param("L", 6), "typea \t")
+	name := zzverif.Str("name", 1, 1, "ae")
+	lines := []string{line}
+	want := -1
+	if verifSpecDeclares(line, verifKeywords[0], name) {
+		want = 0
+	}
+	zzverif.Assert(GetTypeLineNumber(name, lines) == want, "free-line-lookup-agrees-with-specification")
+	_, c := ConstructLineAndColumnData(lines, 0, name)
+	zzverif.Assert(c.Start >= 0 && c.End-c.Start == len(name), "free-line-column-width")
+	if want == 0 {
+		zzverif.Reach("declaration")
+	} else {
+		zzverif.Reach("no-declaration")
+	}
+}
